@@ -38,7 +38,13 @@ func c12Check(c stage.Cfg) func(o *obs.Obs) string {
 				return fmt.Sprintf("%s/lost|output closed after %v, the inputs hold %v", tag, got, all)
 			}
 		}
-		if !cancelled && c.Stop == -1 {
+		if c.Idle && !cancelled && c.Stop == -1 {
+			// the producers went idle without closing: every element they sent is still owed to the consumer
+			if !obs.Equal(sorted(got), all) {
+				return fmt.Sprintf("%s/lost|every input is idle (open) after sending %v, the drained output delivered only %v; library: %v", tag, all, got, o.LibBlocked())
+			}
+		}
+		if !cancelled && c.Stop == -1 && !c.Idle {
 			if !o.Has("got-eof") {
 				return fmt.Sprintf("%s/not-closed|every input closed and drained (%v received) but the output never closes; library: %v", tag, got, o.LibBlocked())
 			}
@@ -60,7 +66,7 @@ func c12Scenarios(tier string) []e1lib.Scenario {
 	dev := false
 	add := func(c stage.Cfg, bound int) {
 		var done []string
-		if !c.Cancel {
+		if !c.Cancel && !c.Idle {
 			done = []string{"got-eof"}
 		}
 		name := stageName(c)
@@ -107,6 +113,25 @@ func c12Scenarios(tier string) []e1lib.Scenario {
 	for _, n := range []int{0, 1, 2, 3} {
 		for cp := 0; cp <= 2; cp++ {
 			add(stage.Cfg{Stage: "join", Cap: cp, Inputs: []int{n}, Stop: -1, Dup: true}, -1)
+		}
+	}
+	// inputs that stay open and idle after their last element (whatever number of goroutines the merge uses, an idle
+	// input may not starve another one), and a consumer that is five minutes late at one point (virtual clock)
+	for _, ins := range [][]int{{0, 1}, {1, 1}, {0, 0, 1}, {1, 0, 2}, {0, 0, 0, 1}, {0, 1, 0, 1, 0, 1, 0, 1, 0, 1, 0, 1, 0, 1, 0, 1, 0, 1, 0, 1}} {
+		b := -1
+		if len(ins) > 4 {
+			dev, b = true, 1
+		}
+		for cp := 0; cp <= 1; cp++ {
+			add(stage.Cfg{Stage: "join", Cap: cp, Inputs: ins, Stop: -1, Idle: true}, b)
+		}
+		dev = false
+	}
+	for _, ins := range [][]int{{2}, {1, 1}, {2, 1}, {3}} {
+		for cp := 0; cp <= 1; cp++ {
+			for at := 0; at <= 2; at++ {
+				add(stage.Cfg{Stage: "join", Cap: cp, Inputs: ins, Stop: -1, Late: 300e9, LateAt: at}, -1)
+			}
 		}
 	}
 	// element type any: the first element of the first input is a nil interface value
